@@ -386,7 +386,17 @@ def skipStep (w : WState) (ev : Event) : WState :=
 def lineStep (K : PpKinds) (inp : Input) (w1 : WState) (ev : Event) : Except PpError WState :=
   match ev with
   | .enter x =>
-    if x.baseKind == K.sdNotDirective || x.baseKind == K.compilerDirective then
+    if x.baseKind == K.sdNotDirective then
+      -- a text item counts from the line of its first character that is not white space; white space only: ignored (repair D18)
+      match locOf x with
+      | some (o, l, line) =>
+        let text := bytesOf inp o l
+        let body := trimStart text
+        if body.isEmpty then .ok w1
+        else if w1.lastIncludeLine == some (line + (text.take (text.length - body.length)).count 10) then .error .includeLine
+        else .ok w1
+      | none => .ok w1
+    else if x.baseKind == K.compilerDirective then
       match locOf x with
       | some (_, _, line) => if w1.lastIncludeLine == some line then .error .includeLine else .ok w1
       | none => .ok w1
